@@ -165,6 +165,10 @@ func handleCCR() diam.HandlerFunc {
 					}
 
 					requestQuota = quota
+					// An overdrawn account has nothing left to grant
+					if requestQuota < 0 {
+						requestQuota = 0
+					}
 				}
 
 				creditControl = &charging_datatype.MultipleServicesCreditControl{
